@@ -4,6 +4,12 @@ Base/Prelude.vos Base/Prelude.vok Base/Prelude.required_vos: Base/Prelude.v
 Base/Compact.vo Base/Compact.glob Base/Compact.v.beautified Base/Compact.required_vo: Base/Compact.v Base/Prelude.vo
 Base/Compact.vio: Base/Compact.v Base/Prelude.vio
 Base/Compact.vos Base/Compact.vok Base/Compact.required_vos: Base/Compact.v Base/Prelude.vos
+Gen/Consts.vo Gen/Consts.glob Gen/Consts.v.beautified Gen/Consts.required_vo: Gen/Consts.v 
+Gen/Consts.vio: Gen/Consts.v 
+Gen/Consts.vos Gen/Consts.vok Gen/Consts.required_vos: Gen/Consts.v 
+Gen/Fixture.vo Gen/Fixture.glob Gen/Fixture.v.beautified Gen/Fixture.required_vo: Gen/Fixture.v 
+Gen/Fixture.vio: Gen/Fixture.v 
+Gen/Fixture.vos Gen/Fixture.vok Gen/Fixture.required_vos: Gen/Fixture.v 
 Peers/Peers.vo Peers/Peers.glob Peers/Peers.v.beautified Peers/Peers.required_vo: Peers/Peers.v Base/Prelude.vo
 Peers/Peers.vio: Peers/Peers.v Base/Prelude.vio
 Peers/Peers.vos Peers/Peers.vok Peers/Peers.required_vos: Peers/Peers.v Base/Prelude.vos
@@ -13,6 +19,12 @@ Peers/PeersProofs.vos Peers/PeersProofs.vok Peers/PeersProofs.required_vos: Peer
 Headers/Tree.vo Headers/Tree.glob Headers/Tree.v.beautified Headers/Tree.required_vo: Headers/Tree.v Base/Prelude.vo Base/Compact.vo
 Headers/Tree.vio: Headers/Tree.v Base/Prelude.vio Base/Compact.vio
 Headers/Tree.vos Headers/Tree.vok Headers/Tree.required_vos: Headers/Tree.v Base/Prelude.vos Base/Compact.vos
+Headers/Pow.vo Headers/Pow.glob Headers/Pow.v.beautified Headers/Pow.required_vo: Headers/Pow.v Base/Prelude.vo Base/Compact.vo Gen/Consts.vo Headers/Tree.vo
+Headers/Pow.vio: Headers/Pow.v Base/Prelude.vio Base/Compact.vio Gen/Consts.vio Headers/Tree.vio
+Headers/Pow.vos Headers/Pow.vok Headers/Pow.required_vos: Headers/Pow.v Base/Prelude.vos Base/Compact.vos Gen/Consts.vos Headers/Tree.vos
+Headers/PowProofs.vo Headers/PowProofs.glob Headers/PowProofs.v.beautified Headers/PowProofs.required_vo: Headers/PowProofs.v Base/Prelude.vo Base/Compact.vo Gen/Consts.vo Headers/Tree.vo Headers/Pow.vo
+Headers/PowProofs.vio: Headers/PowProofs.v Base/Prelude.vio Base/Compact.vio Gen/Consts.vio Headers/Tree.vio Headers/Pow.vio
+Headers/PowProofs.vos Headers/PowProofs.vok Headers/PowProofs.required_vos: Headers/PowProofs.v Base/Prelude.vos Base/Compact.vos Gen/Consts.vos Headers/Tree.vos Headers/Pow.vos
 Headers/TreeBasics.vo Headers/TreeBasics.glob Headers/TreeBasics.v.beautified Headers/TreeBasics.required_vo: Headers/TreeBasics.v Base/Prelude.vo Base/Compact.vo Headers/Tree.vo
 Headers/TreeBasics.vio: Headers/TreeBasics.v Base/Prelude.vio Base/Compact.vio Headers/Tree.vio
 Headers/TreeBasics.vos Headers/TreeBasics.vok Headers/TreeBasics.required_vos: Headers/TreeBasics.v Base/Prelude.vos Base/Compact.vos Headers/Tree.vos
@@ -55,3 +67,6 @@ Props/C11.vos Props/C11.vok Props/C11.required_vos: Props/C11.v Base/Prelude.vos
 Props/C17.vo Props/C17.glob Props/C17.v.beautified Props/C17.required_vo: Props/C17.v Base/Prelude.vo Base/Compact.vo Headers/Tree.vo Headers/TreeBasics.vo Headers/TreeInv.vo Headers/TreeSteps.vo Headers/TreeStream.vo Headers/TreeProps.vo Headers/TreeExample.vo
 Props/C17.vio: Props/C17.v Base/Prelude.vio Base/Compact.vio Headers/Tree.vio Headers/TreeBasics.vio Headers/TreeInv.vio Headers/TreeSteps.vio Headers/TreeStream.vio Headers/TreeProps.vio Headers/TreeExample.vio
 Props/C17.vos Props/C17.vok Props/C17.required_vos: Props/C17.v Base/Prelude.vos Base/Compact.vos Headers/Tree.vos Headers/TreeBasics.vos Headers/TreeInv.vos Headers/TreeSteps.vos Headers/TreeStream.vos Headers/TreeProps.vos Headers/TreeExample.vos
+Props/C02.vo Props/C02.glob Props/C02.v.beautified Props/C02.required_vo: Props/C02.v Base/Prelude.vo Base/Compact.vo Gen/Consts.vo Gen/Fixture.vo Headers/Tree.vo Headers/Pow.vo Headers/PowProofs.vo
+Props/C02.vio: Props/C02.v Base/Prelude.vio Base/Compact.vio Gen/Consts.vio Gen/Fixture.vio Headers/Tree.vio Headers/Pow.vio Headers/PowProofs.vio
+Props/C02.vos Props/C02.vok Props/C02.required_vos: Props/C02.v Base/Prelude.vos Base/Compact.vos Gen/Consts.vos Gen/Fixture.vos Headers/Tree.vos Headers/Pow.vos Headers/PowProofs.vos
